@@ -71,11 +71,12 @@ impl Array {
         } else {
             let backward_op: BackwardOp = Rc::new(move |_, t, x| {
                 vec![if t[0] {
-                    Some(Array::roll_blocks(
+                    Some(Array::roll_blocks_with(
                         x,
                         image_dimensions,
                         stride_dimensions,
                         filter_dimensions,
+                        true,
                     ))
                 } else {
                     None
@@ -88,11 +89,29 @@ impl Array {
     }
 
     /// Inverse of unrolling the blocks.
+    #[cfg(test)]
     fn roll_blocks(
         unrolled: &Array,
         image_dimensions: (usize, usize, usize),
         stride_dimensions: (usize, usize),
         filter_dimensions: (usize, usize),
+    ) -> Array {
+        Array::roll_blocks_with(
+            unrolled,
+            image_dimensions,
+            stride_dimensions,
+            filter_dimensions,
+            false,
+        )
+    }
+
+    /// Rolls the blocks, summing the values of overlapping blocks if `is_summed` (the derivative of unrolling).
+    fn roll_blocks_with(
+        unrolled: &Array,
+        image_dimensions: (usize, usize, usize),
+        stride_dimensions: (usize, usize),
+        filter_dimensions: (usize, usize),
+        is_summed: bool,
     ) -> Array {
         let dimension_count = unrolled.dimensions.len();
         let (image_depth, image_rows, image_cols) = image_dimensions;
@@ -144,7 +163,11 @@ impl Array {
                         filter_col_index + filter_row_offset + depth_offset + stride_offset
                     };
 
-                    output_slice[output_index] = arrays[0][input_index];
+                    if is_summed {
+                        output_slice[output_index] += arrays[0][input_index];
+                    } else {
+                        output_slice[output_index] = arrays[0][input_index];
+                    }
                 }
             }
         });
@@ -155,7 +178,7 @@ impl Array {
             None,
             &unrolled.dimensions,
             &output_dimensions,
-            3,
+            2,
             0,
         );
 
